@@ -323,6 +323,10 @@ Lemma remove_file_exact_full m f w r w' x :
   NoShortLocal w x ->
   m_remove_file T m f w = Val (r, w') -> model_b w m = Some x -> In f (m_files x) ->
   TreeInv w' /\ roots w' = roots w /\
+  (forall i n, Reach w (m_root x) i -> Reach w' (m_root x) i -> w_nodes w i = Some n ->
+     exists n', w_nodes w' i = Some n' /\ n_name n' = n_name n /\ n_parent n' = n_parent n /\ n_type n' = n_type n /\
+                n_attrs n' = n_attrs n /\ n_comment n' = n_comment n /\ n_files n' = set_remove f (n_files n) /\
+                thin (n_content n') (n_content n)) /\
   forall i, Reach w (m_root x) i -> (Reach w' (m_root x) i <-> exists g, g <> f /\ Attributed w i g).
 Proof.
   intros TI FI HK HU HL NS H Hmx Hin. pose proof TI as (C & NO & _).
@@ -352,7 +356,23 @@ Proof.
     destruct (c_up _ C _ _ Hl) as (nd' & Hnd' & Hpp). assert (nd' = nd) by congruence. subst nd'.
     exists (set_files nd fs), p. split; auto. split; [exact Hpp|]. split; [|apply R13; exact Hrd].
     cbn. intros Hs. apply Hne. eapply NS; eauto. }
-  split; auto. split; [congruence|].
+  split; auto. split; [congruence|]. split.
+  { intros i n Hri Hri' Hn.
+    assert (cur = n_files rn) as Ecur.
+    { destruct (n_files rn) as [|g0 l0] eqn:Ef.
+      - destruct (Eff_up_inv _ _ _ _ Hcur Hrn Ef) as (p & Hp & _). congruence.
+      - rewrite <- Ef. eapply Eff_local_inv; eauto. congruence. }
+    assert (w_nodes w3 i = Some (set_files n (set_remove f (n_files n)))) as H3.
+    { destruct (st_node _ _ _ _ _ S i n) as (fs & H3 & He & Hi & _); [rewrite Hn1; auto|].
+      rewrite H3. destruct (N.eq_dec i (m_root x)) as [->|Hne].
+      - rewrite (He eq_refl). assert (n = rn) by congruence. subst n. rewrite Ecur. reflexivity.
+      - rewrite (Hi Hne); auto. apply (reach_same_tree w w1); auto. }
+    destruct (J _ _ H3) as (n' & Hn' & [((P & Nm & _) & (Ty & At & Cm & Fs & Th))|(P & _)]).
+    - exists n'. cbn in *. repeat split; auto.
+    - exfalso. destruct TI' as (C' & _).
+      destruct (reach_cases _ _ _ Hri') as [->|(q & _ & Hq)].
+      + rewrite <- Rt' in Hk. destruct (c_roots _ C' _ _ Hk) as (n2 & Hn2 & Hp2). congruence.
+      + destruct (c_up _ C' _ _ Hq) as (n1 & Hn1' & Hp1). congruence. }
   intros i Hri. split; [|apply Keep; auto]. intros Hri'.
   assert (m_files x <> []) as Hne by (intros E; rewrite E in Hfin; destruct Hfin).
   destruct (fi_eff _ _ _ FIx Hne i Hri) as (si & Hsi).
@@ -413,7 +433,7 @@ Lemma removed_not_mreach m f w r w' x :
   forall i, Reach w (m_root x) i -> ~ (exists g, g <> f /\ Attributed w i g) -> ~ Index.MReach T w' m i.
 Proof.
   intros TI FI HK HU HL NS H Hmx Hin i Hri Hno (x' & Hx' & Hr').
-  destruct (remove_file_exact_full m f w r w' x TI FI HK HU HL NS H Hmx Hin) as ((C' & _) & Rt & Ex).
+  destruct (remove_file_exact_full m f w r w' x TI FI HK HU HL NS H Hmx Hin) as ((C' & _) & Rt & _ & Ex).
   assert (m_root x' = m_root x) as Er.
   { unfold Index.model_at in Hx'. unfold model_b in Hmx. rewrite nth_opt_error in Hx', Hmx.
     assert (nth_error (roots w') (N.to_nat m) = Some (m_root x')) as H1 by (unfold roots; rewrite nth_error_map, Hx'; reflexivity).
